@@ -9,7 +9,10 @@ use std::process::{Command, Stdio};
 use std::time::Instant;
 
 pub const DEFAULT_SEED: u64 = 20260926;
-pub const VERIF_DIR: &str = "/verif";
+/// the directory the check was started in (the `check` script changes into its own directory first)
+pub fn verif_dir() -> String {
+    std::env::var("VERIF_DIR").ok().unwrap_or_else(|| std::env::current_dir().map(|p| p.to_string_lossy().to_string()).unwrap_or_else(|_| "/verif".into()))
+}
 
 #[derive(Clone, Copy, PartialEq, Eq, Debug)]
 pub enum Tier {
@@ -337,7 +340,7 @@ pub struct KnownFindings {
 }
 impl KnownFindings {
     pub fn load() -> KnownFindings {
-        let p = format!("{}/known_findings.json", VERIF_DIR);
+        let p = format!("{}/known_findings.json", verif_dir());
         let entries = std::fs::read_to_string(&p)
             .ok()
             .and_then(|s| serde_json::from_str::<Value>(&s).ok())
@@ -406,7 +409,7 @@ pub fn parent_main<W: World>(tier: Tier, plan: Plan, extra: Extra) -> i32 {
     let kf = KnownFindings::load();
     let mut known_lines = 0u64;
     for e in kf.known(prop) {
-        let path = format!("{}/{}", VERIF_DIR, e["replay"].as_str().unwrap_or(""));
+        let path = format!("{}/{}", verif_dir(), e["replay"].as_str().unwrap_or(""));
         let still = std::fs::read_to_string(&path)
             .ok()
             .and_then(|s| serde_json::from_str::<Value>(&s).ok())
@@ -428,7 +431,7 @@ pub fn parent_main<W: World>(tier: Tier, plan: Plan, extra: Extra) -> i32 {
     // 4. violations
     let mut new_violations = 0u64;
     let mut harness_errors = 0u64;
-    let _ = std::fs::create_dir_all(format!("{}/replays", VERIF_DIR));
+    let _ = std::fs::create_dir_all(format!("{}/replays", verif_dir()));
     for v in &m.violations {
         if v.get("harness_error").is_some() {
             harness_errors += 1;
@@ -438,7 +441,7 @@ pub fn parent_main<W: World>(tier: Tier, plan: Plan, extra: Extra) -> i32 {
         let sig = v["signature"].as_str().unwrap_or("");
         // a listed finding is identified by the signature of the world in its replay file
         let listed = kf.known(prop).into_iter().find(|e| {
-            std::fs::read_to_string(format!("{}/{}", VERIF_DIR, e["replay"].as_str().unwrap_or("")))
+            std::fs::read_to_string(format!("{}/{}", verif_dir(), e["replay"].as_str().unwrap_or("")))
                 .ok()
                 .and_then(|s| serde_json::from_str::<Value>(&s).ok())
                 .and_then(|f| W::from_json(&f["world"]).ok())
@@ -454,7 +457,7 @@ pub fn parent_main<W: World>(tier: Tier, plan: Plan, extra: Extra) -> i32 {
         if new_violations > 5 {
             continue; // counted, but five replay files are enough
         }
-        let path = format!("{}/replays/{}-{}-{}.json", VERIF_DIR, prop, v["run_seed"], new_violations);
+        let path = format!("{}/replays/{}-{}-{}.json", verif_dir(), prop, v["run_seed"], new_violations);
         let file = json!({"property": prop, "verif_seed": seed, "run_index": v["run_index"], "run_seed": v["run_seed"],
             "class": v["class"], "detail": v["detail"], "log_hash": v["log_hash"], "world": v["world"]});
         let _ = std::fs::write(&path, serde_json::to_string_pretty(&file).unwrap());
@@ -487,8 +490,8 @@ pub fn parent_main<W: World>(tier: Tier, plan: Plan, extra: Extra) -> i32 {
         "property_id": prop, "tier": tier.name(), "seed": seed, "level": extra.level,
         "coverage": cov, "assumptions": extra.assumptions, "wall_s": wall, "violations": new_violations,
     });
-    let _ = std::fs::create_dir_all(format!("{}/evidence", VERIF_DIR));
-    let evp = format!("{}/evidence/{}.json", VERIF_DIR, prop);
+    let _ = std::fs::create_dir_all(format!("{}/evidence", verif_dir()));
+    let evp = format!("{}/evidence/{}.json", verif_dir(), prop);
     if let Err(e) = std::fs::write(&evp, serde_json::to_string_pretty(&ev).unwrap()) {
         println!("HARNESS-ERROR cannot write evidence {}: {}", evp, e);
         return 2;
